@@ -236,7 +236,9 @@ def deep_checks(tier, fails, stats):
                         a = a + v if op == "+" else a - v if op == "-" else a * v if op == "*" else a / v
                     return a
                 num = (val(env["x"] + h) - val(env["x"] - h)) / (2 * h)
-                gv = outcome(lambda: float(g[1].evaluate(env)))
+                # the derivative tree of a deep product is deeper than the product itself: it is evaluated the way optyx uses
+                # it (compiled), not through the recursive tree walk
+                gv = outcome(lambda: float(CP.compile_expression(g[1], [y, x])(np.array([env["y"], env["x"]]))))
                 if gv[0] != "ok" or abs(gv[1] - num) > 1e-4 * max(1.0, abs(num)):
                     fails.append(("gradient", label, f"gradient value {gv} vs central difference {num}"))
     # a base term of every unary function inside a deep '+' chain: supported shallow => supported deep
